@@ -248,18 +248,8 @@ def run(prog, chk):
                    'every qubit slot of a destroyed object is released exactly once (one sweep over obj->fields, inner sweep only over a qubit[] slot\'s elements)%s' %
                    ('' if ok else ': ' + '; '.join(detail)), key='release-once:%s' % gf.short)
     if allocs:
-        a = allocs[0]
-        ga = prog.cfg(a)
-        pops = [c for c in ga.calls(lambda e: e['k'] == 'mcall' and SX.short(e['callee']) == 'pop_back' and SX.is_this_member(SX.strip(e.get('obj')), free))]
-        backs = [d for d in ga.nodes if d.kind in ('assign', 'decl') and any(x['k'] == 'mcall' and SX.short(x['callee']) == 'back' and SX.is_this_member(SX.strip(x.get('obj')), free)
-                                                                     for x in SX.walk(d.e if d.kind == 'assign' else d.e.get('init')))]
-        resets = [c for c in ga.calls(lambda e: R.is_sim_call(e, (sim['reset'].short,)))]
-        ok = bool(pops) and bool(backs) and all(ga.must_follow(p, resets) for p in pops) and all(ga.must_precede(backs, p) for p in pops)
-        chk.ob('R03.4', a, a.ln, ok, 'a reused index is read from the free list, popped, and reset in the simulator before it is handed out', key='reuse-resets')
-        # the two sources of an index are exclusive: either popped or freshly allocated
-        al_calls = [c for c in ga.calls(lambda e: R.is_sim_call(e, (al.short,)))]
-        excl = bool(al_calls) and bool(pops) and not any(c.id in ga.reachable(pops) for c in al_calls) and not any(p.id in ga.reachable(al_calls) for p in pops)
-        chk.ob('R03.4', a, a.ln, excl, 'an index is either reused or freshly allocated, never both', key='exclusive-sources')
+        for key, a, ok, detail in reuse_discipline(prog, R, sim, al, allocs[0], free):
+            chk.ob('R03.4', a, a.ln, ok, detail, key=key)
 
     # ---- R03.5 -----------------------------------------------------------------------------
     _alias_rule(prog, chk, R)
@@ -274,6 +264,23 @@ def _const_val(e):
     while SX.is_node(e) and e['k'] in ('construct', 'cast') and (e.get('args') or e.get('e')):
         e = SX.strip(e['args'][0]) if e['k'] == 'construct' else SX.strip(e['e'])
     return e.get('v') if SX.is_node(e) else None
+
+
+def reuse_discipline(prog, R, sim, al, a, free):
+    """the allocation role a: a reused index is the free list's last element, which is the one removed, and it is reset in the
+    simulator before it is handed out; reuse and fresh allocation exclude each other → [(key, function, ok, detail)]"""
+    ga = prog.cfg(a)
+    pops = [c for c in ga.calls(lambda e: e['k'] == 'mcall' and SX.short(e['callee']) == 'pop_back' and SX.is_this_member(SX.strip(e.get('obj')), free))]
+    backs = [d for d in ga.nodes if d.kind in ('assign', 'decl') and any(x['k'] == 'mcall' and SX.short(x['callee']) == 'back' and SX.is_this_member(SX.strip(x.get('obj')), free)
+                                                                 for x in SX.walk(d.e if d.kind == 'assign' else d.e.get('init')))]
+    resets = [c for c in ga.calls(lambda e: R.is_sim_call(e, (sim['reset'].short,)))]
+    ok = bool(pops) and bool(backs) and all(ga.must_follow(p, resets) for p in pops) and all(ga.must_precede(backs, p) for p in pops)
+    out = [('reuse-resets', a, ok, 'a reused index is read from the free list, popped, and reset in the simulator before it is handed out')]
+    # the two sources of an index are exclusive: either popped or freshly allocated
+    al_calls = [c for c in ga.calls(lambda e: R.is_sim_call(e, (al.short,)))]
+    excl = bool(al_calls) and bool(pops) and not any(c.id in ga.reachable(pops) for c in al_calls) and not any(p.id in ga.reachable(al_calls) for p in pops)
+    out.append(('exclusive-sources', a, excl, 'an index is either reused or freshly allocated, never both'))
+    return out
 
 
 class _Sub:
